@@ -30,7 +30,18 @@ def gen_scenario(rng, cfg, n_calls, multi_prob, history=None):
     case = infer.gen_case(rng, atoms, rng.choice([2, 3, 3, 4]), 5, shapes, min_layers=rng.choice([0, 0, 2]) if not weakly else 0)
     if case is None:
         return None
-    pool = [(q["B"], q["A"]) for q in case["qs"][:4]]
+    pool = [(q["B"], q["A"]) for q in case["qs"][:3]]
+    # queries over atoms that occur in no conditional of the base (each introduces new SAT variables on the shared manager)
+    extra = [a for a in infer.SIG if a not in case["sig"]][:2]
+    full = list(case["sig"]) + extra
+    lit = lambda names: (M.V(rng.choice(names)) if rng.random() < 0.6 else M.Not(M.V(rng.choice(names))))
+    pool.append((lit(extra[:1]), lit(case["sig"])))
+    pool.append((lit(extra[1:]), lit(extra[:1])))
+    if rng.random() < 0.5:
+        q = infer.gen_cond(full, rng)
+        pool.append((q["B"], q["A"]))
+    rng.shuffle(pool)
+    case["sig"] = full
     while len(pool) < 3:
         q = infer.gen_cond(case["sig"], rng)
         pool.append((q["B"], q["A"]))
@@ -179,6 +190,86 @@ def sim_histories(chk: Check, rng, n, tier):
     return hist
 
 
+def repo_test_traces(chk: Check, tier: str):
+    """Run the repository's own tests under the recorder and turn every manager's events into a trace.
+    The tests do not tag their queries, so a query is identified by its text and its reference answer is the first
+    answer recorded for that text on that manager: the trace then checks row plumbing, submission order, single
+    preprocessing, history independence of repeated texts and absence of leftover workers."""
+    import subprocess
+    import sys
+
+    import tracer
+    from common import REPO, VERIF
+
+    os.makedirs(os.path.join(BUILD, "traces"), exist_ok=True)
+    path = os.path.join(BUILD, "traces", f"repo_tests_{chk.prop}.ndjson")
+    if os.path.exists(path):
+        os.unlink(path)
+    env = dict(os.environ)
+    env.update({"INFOCF_VERIF": "1", "INFOCF_TRACE_FILE": path, "PYTHONPATH": os.path.join(VERIF, "harness") + ":" + REPO, "INFOCF_LOGLEVEL": "ERROR"})
+    sel = [] if tier == "thorough" else ["--deselect", "unittests/test_correctness.py"]
+    p = subprocess.run([sys.executable, "-m", "pytest", "-q", "-p", "no:cacheprovider", "-p", "infocf_tracer_plugin", "--timeout=900", "unittests"] + sel,
+                       cwd=REPO, env=env, capture_output=True, text=True, timeout=1500)
+    chk.cov["repo_tests_summary"] = (p.stdout.strip().splitlines() or ["?"])[-1][:200]
+    if not os.path.exists(path):
+        machinery_failure("recorder produced no trace file while running the repository's tests:\n" + (p.stdout + p.stderr)[-800:])
+    events = tracer.read_events(path)
+    os.unlink(path)
+    by = {}
+    for e in events:
+        if "mid" in e:
+            by.setdefault((e["pid"] if e["ev"] == "new" else None, e["mid"]), [])
+    # managers are numbered per process; worker events carry the parent's number (fork), so group by mid and creation order
+    groups, cur = {}, {}
+    for e in events:
+        mid = e.get("mid")
+        if mid is None:
+            continue
+        if e["ev"] == "new":
+            cur[mid] = cur.get(mid, 0) + 1
+        groups.setdefault((mid, cur.get(mid, 0)), []).append(e)
+    traces, docs = [], []
+    for key, evs in groups.items():
+        if not any(e["ev"] == "call" for e in evs):
+            continue
+        texts, truth = [], {}
+        qid = {}
+        for e in evs:
+            if e["ev"] == "call":
+                for b in e["batch"]:
+                    if b[2] not in qid:
+                        qid[b[2]] = len(qid) + 1
+                        texts.append(b[2])
+            elif e["ev"] == "answer" and e["text"] in qid and qid[e["text"]] not in truth and not e["to"]:
+                truth[qid[e["text"]]] = e["result"]
+        refused = any(e["ev"] == "prep" and e["outcome"] == "refuse" for e in evs)
+        tr = []
+        for e in evs:
+            if e["ev"] == "call":
+                tr.append({"ev": "call", "batch": [[b[0], qid[b[2]]] for b in e["batch"]], "multi": e["multi"]})
+            elif e["ev"] == "prep":
+                tr.append({"ev": "prep", "outcome": e["outcome"]})
+            elif e["ev"] == "answer":
+                tr.append({"ev": "answer", "q": qid.get(e["text"], 0), "result": e["result"], "to": e["to"]})
+            elif e["ev"] == "return":
+                tr.append({"ev": "return", "rows": e["rows"], "children": e["children"]})
+            elif e["ev"] == "raise":
+                tr.append({"ev": "raise", "exc": e["exc"]})
+            elif e["ev"] != "new":
+                tr.append({"ev": e["ev"]})
+        traces.append({"env": {"truth": [truth.get(i + 1, "F") for i in range(len(texts))], "text": texts, "cons": not refused}, "events": tr})
+        new = next((e for e in evs if e["ev"] == "new"), {})
+        docs.append({"system": new.get("system"), "backend": new.get("backend"), "weakly": new.get("weakly"), "queries": texts[:5]})
+    chk.cov["repo_test_managers_traced"] = len(traces)
+    for rj in validate_traces(chk, traces, "repotests"):
+        d = docs[rj["reject"] - 1]
+        ev = rj.get("event")
+        chk.violation(f"manager/repo-tests|{json.dumps(d)}|at={rj.get('at')}|{json.dumps(ev)[:150]}",
+                      f"trace of a manager created by the repository's own tests ({d}) is not a behaviour of Manager.tla: event #{rj.get('at')} {json.dumps(ev)[:300]} in state {rj.get('state')}",
+                      {"kind": "manager-repo-tests", "manager": d, "trace": traces[rj["reject"] - 1]["events"][:60], "rejected_at": rj.get("at")})
+    return len(traces)
+
+
 def run(chk: Check, tier: str):
     rng = random.Random(chk.seed)
     os.makedirs(os.path.join(BUILD, "traces"), exist_ok=True)
@@ -241,12 +332,14 @@ def run(chk: Check, tier: str):
         chk.violation(f"manager|{sc['cfg']}|{';'.join(M.render_cond(*c) for c in sc['base'])}|{json.dumps(sc['history'])}|at={at}",
                       f"{sc['cfg']}: recorded trace is not a behaviour of Manager.tla: event #{at} {json.dumps(ev)[:300]} cannot be matched in state {rj.get('state')}",
                       {"kind": "manager", "scenario": _doc(sc), "truth_when_asked_alone": r["truth"], "trace": to_trace(r)["events"], "rejected_at": at, "model_state": rj.get("state")})
+    repo_test_traces(chk, tier)
     chk.cov["rule"] = (
         "MC_Manager: all histories of <= 2 (3) calls, batches <= 2 (3) from a pool of 4 queries (two with equal text), all distinct-key assignments over 3 keys, sequential and parallel "
         "with every completion order; the as-originally-coded text-keyed plumbing variant must violate RowsOwnKey (non-vacuity). Real code: seeded scenarios per operator/back-end/mode "
         "(base over 2-3 atoms, pool of 4-5 queries incl. two with identical text, histories of 2-4 calls, arbitrary integer keys, 25% parallel calls with per-query delays to vary completion order) "
         "and histories taken from TLC-simulated behaviours of MC_Manager; every run is recorded by the external tracer (call, prep, answer, return/raise; live child processes at return) and "
-        "validated by TLC against Manager.tla with truth = the answer of each query asked alone on a fresh manager. Non-trivial = scenario with >= 2 calls, a parallel call, or duplicate texts in a batch."
+        "validated by TLC against Manager.tla with truth = the answer of each query asked alone on a fresh manager. The repository's own tests (quick: all but test_correctness) run under the same recorder as a pytest plugin; every manager they create "
+        "becomes a trace validated the same way (queries identified by text). Non-trivial = scenario with >= 2 calls, a parallel call, or duplicate texts in a batch."
     )
     chk.assumptions += ["the reference answer of a query is the one it gets alone on a fresh manager (C01-C05/C07 relate that to the semantics)",
                         "completion orders of worker processes are influenced by delays, not enumerated"]
